@@ -848,6 +848,21 @@ CHECKS['C15']['note'] = CHECKS['C15']['note'] + (
     'division). The pinned bodies of _find_indices / _NearestInterpolator._evaluate are compared after sound normalisations and, '
     'failing that, probed behaviourally on an exactly representable grid against the model (evidence: extraction_source).')
 
+CHECKS['C01']['text'] = CHECKS['C01']['text'].replace('21 theorems.', '24 theorems.').replace(
+    'array-like operand coercion and power-space broadcasting it is tied by correspondence / oracle only.',
+    'array-like operand coercion and out-of-place power-space broadcasting it is tied by correspondence / oracle only. IN-PLACE '
+    'power-space broadcasting (x *= other, other possibly one of x\'s own parts) is a theorem: bcast_inplace_correct (with the copy '
+    'guard AS EXTRACTED from _broadcast_arithmetic_impl every part gets g(part, ORIGINAL other), nothing outside the parts changes; '
+    'any number of pairwise distinct parts), bcastLoop_ok, opStep_ok (the four in-place element operators meet the step contract), '
+    'bcast_without_copy_fails (sensitivity: the pre-repair behaviour, /repo fix 60d322b).')
+CHECKS['C01']['note'] = CHECKS['C01']['note'].replace(
+    'tiny grammars, anything else is a broken obligation.',
+    'and tools/extract/broadcast.py (the copy guard of _broadcast_arithmetic_impl -> Gen/Broadcast.lean). The dispatch of '
+    '_lincomb_impl is translated by a small symbolic executor (local bindings of the scalars / sources, conditional expressions, '
+    'merged branches, early returns); _blas_is_applicable, when it is not a plain if/elif chain, is tabulated from the LIVE function '
+    'over all 32 descriptor classes after an AST vocabulary check (evidence: lincomb_translator = source=ast|live); anything outside '
+    'the vocabularies is a broken obligation.')
+
 NOT_YET = {}
 
 
